@@ -72,7 +72,7 @@ def make_case(r, thorough, force=None):
     nc = f.get('nc') or int(r.integers(1, 3))
     nn = f.get('nn') or int(r.integers(1, 4))
     ctl = f.get('ctl') or str(r.choice(['traceless', 'nontraceless'], p=[.65, .35]))
-    noise = f.get('noise') or str(r.choice(['traceless', 'nontraceless'], p=[.65, .35]))
+    noise = f.get('noise') or str(r.choice(['traceless', 'nontraceless', 'mixed'], p=[.5, .3, .2]))
     amp = f.get('amp') or str(r.choice(['generic', 'idle', 'zero-amp', 'degenerate-diag', 'degenerate-rot', 'tiny',
                                         'small', 'repeated', 'scaled'], p=[.34, .12, .12, .06, .08, .06, .06, .08, .08]))
     drift = f.get('drift') if 'drift' in f else bool(r.random() < 0.4)
@@ -115,9 +115,19 @@ def make_case(r, thorough, force=None):
         g1 = int(r.integers(1, G))
         coeffs[:, g1] = coeffs[:, g1 - 1]
     dt = r.uniform(0.3, 1.5, G)
-    n_ops = [gen.herm(r, d, traceless=tl_n) for _ in range(nn)]
-    if not tl_n:
-        n_ops[0] = n_ops[0] + (0.5 + r.random()) * np.eye(d)
+    if noise == 'mixed':       # some noise operators EXACTLY traceless, the others with different non-zero traces
+        nn = max(nn, 2)
+        tl_flags = [bool(j % 2) for j in range(nn)] if r.random() < 0.5 else [not bool(j % 2) for j in range(nn)]
+        n_ops = []
+        for j, tl in enumerate(tl_flags):
+            A = gen.herm(r, d, traceless=True)
+            dg = np.round(A.diagonal().real[:-1] * 1024) / 1024     # dyadic diagonal: the trace is EXACTLY zero
+            A[np.arange(d), np.arange(d)] = np.append(dg, -dg.sum())
+            n_ops.append(A if tl else A + (0.4 + j + r.random()) * np.eye(d))
+    else:
+        n_ops = [gen.herm(r, d, traceless=tl_n) for _ in range(nn)]
+        if not tl_n:
+            n_ops[0] = n_ops[0] + (0.5 + r.random()) * np.eye(d)
     ncoef = r.standard_normal((nn, G))
     if sens == 'constant':
         ncoef = np.ones((nn, G)) * r.uniform(0.5, 2.0, (nn, 1))
@@ -134,6 +144,8 @@ def make_case(r, thorough, force=None):
         coeffs = coeffs / lam
         dt = dt * lam
     n_ids = ['n%d' % j for j in range(nn)]
+    if noise == 'mixed' and r.random() < 0.5:
+        n_ids = ['n%d' % (nn - 1 - j) for j in range(nn)]      # listing order differs from the sorted order
     basis = gen.make_basis(r, d, bk)
     p = ff.PulseSequence([[o, c, i] for o, c, i in zip(c_ops, coeffs, c_ids)],
                          [[o, c, i] for o, c, i in zip(n_ops, ncoef, n_ids)], dt, basis=basis)
@@ -505,7 +517,9 @@ FORCED = [dict(d=2, G=3, ctl='nontraceless', noise='traceless', amp='generic', n
           dict(d=3, G=3, amp='tiny', drift=True),
           dict(d=3, G=3, amp='small', ctl='traceless', noise='traceless', ncd=False),
           dict(d=3, G=2, amp='generic', ctl='traceless', noise='traceless', ncd=False, res_delta=3e-7),
-          dict(d=3, G=2, amp='generic', ctl='traceless', noise='nontraceless', basis='nontraceless', ncd=True, sens='generic')]
+          dict(d=3, G=2, amp='generic', ctl='traceless', noise='nontraceless', basis='nontraceless', ncd=True, sens='generic'),
+          dict(d=2, G=2, amp='generic', ctl='traceless', noise='mixed', nn=2, ncd=True, sens='generic', seln='all'),
+          dict(d=3, G=3, amp='generic', noise='mixed', nn=3, ncd=True, sens='generic', seln='perm', spec='2d')]
 
 
 def run(ctx):
